@@ -734,7 +734,10 @@ RANGES = sorted(set([1, 2, 3, 4, 5, 7, 8, 9, 15, 16, 17, 31, 32, 33, 63, 64, 65,
                      2**32 - 1, 2**32, 2**32 + 1, 4000000000001, 2**40 - 1, 2**40, 2**40 + 1, 2**48, 2**56 + 1]))
 
 
-def prim_cases(rng, tier):
+DEEP_LENS = [255, 256, 1023, 4096, 8191, 8192, 8193, 12345, 16383]
+
+
+def prim_cases(rng, tier, deep_lens=None):
     """list of primitive encode cases over the constraint space (boundary values first)"""
     cs = []
     quick = tier == "quick"
@@ -792,8 +795,12 @@ def prim_cases(rng, tier):
                 ns = [lo, lo + 1, (lo + hi) // 2, hi - 1, hi, hi + 1, lo - 1, 127, 128, 129, 2, 3, 16, 17]
                 if kind == 'string' and quick: ns = ns[:6]
                 if not quick: ns += [16383, 16384, 16385]
+                # every bit of the two-octet length determinant (10.9.3.7): lengths around 2^13 and up to 2^14 - 1,
+                # for the unconstrained shapes also in the quick tier
+                deep = kind in ('octets', 'bits') and ub is None and not ext
+                if deep: ns += (DEEP_LENS if deep_lens is None or not quick else deep_lens)
                 for n in sorted(set(ns)):
-                    if n < 0 or n > big: continue
+                    if n < 0 or (n > big and not (deep and n <= 16383)): continue
                     if kind == 'seqof' and n > 300: continue
                     if kind in ('octets', 'string'):
                         add(kind, lb, ub, ext, hex=rng.bytes(n).hex())
